@@ -273,7 +273,7 @@ func c18(ctx *Ctx) {
 		}
 	}
 	if isFault["control-string"] {
-		harnessFail("the control schema is rejected by the tool: %s", probe[len(probe)-2].res.Stderr)
+		ctx.Run.Violation("valid-input-rejected:control", fmt.Sprintf("C18: a plain string property is rejected by the tool: %s", trunc(probe[len(probe)-2].res.Stderr, 300)), map[string]any{"kind": "cli", "kindName": "control-string"})
 	}
 	var runs []*c18Run
 	for _, k := range kinds {
